@@ -14,8 +14,12 @@ D-GROUP      each draw_* method selects the parameter group named by its annotat
              and from a top-level MPDrawParams; draw_scenario hands each obstacle class its own group
 D-NULLSAFE   in the obstacle drawing methods results of queries annotated as possibly None are dereferenced only
              under a dominating not-None test
-D-TIME       the occupancy drawn as the obstacle's shape is obj.occupancy_at_time(draw_params.time_begin); further
-             occupancies are asked for time steps ranging within [time_begin, time_end)
+D-TIME       static, phantom and environment drawers, evaluated on obstacle models that record what is asked and
+             drawn: exactly the occupancies of the selected time steps (time_begin; for set-based predictions the
+             steps of [time_begin, time_end)) are drawn once each with the occupancy parameters; the long
+             draw_dynamic_obstacle keeps the structural form of the rule (canonicalised time arguments)
+D-PATCH      draw_polygon / draw_rectangle / draw_ellipse, evaluated: one closed matplotlib polygon of exactly the
+             given vertices; an ellipse at the centre that is 2 * radius_x wide and 2 * radius_y high
 D-LANELETS   draw_lanelet_network iterates all lanelets of the network and skips exactly those not in draw_ids
 """
 import ast
